@@ -82,6 +82,56 @@ impl TypeParams {
         }
     }
 
+    /// Reports every `#[logos(type T = ..)]` item whose concrete type refers to `T` itself, directly or
+    /// through the concrete types of other parameters, and forgets it: `Parser::get_type` replaces
+    /// parameters inside the types it has substituted, which would never end for such an item.
+    pub fn reject_recursive_types(&mut self, errors: &mut Errors) {
+        let params = self
+            .type_params
+            .iter()
+            .map(|(param, _)| param.clone())
+            .collect::<Vec<_>>();
+        // For every parameter, the parameters its concrete type mentions
+        let mentions = self
+            .type_params
+            .iter()
+            .map(|(_, ty)| {
+                let mut found = Vec::new();
+                if let Some(ty) = ty {
+                    traverse_type(&mut ty.clone(), &mut |ty| {
+                        if let Type::Path(tp) = ty {
+                            if tp.qself.is_none() {
+                                found.extend(params.iter().position(|param| tp.path.is_ident(param)));
+                            }
+                        }
+                    });
+                }
+                found
+            })
+            .collect::<Vec<_>>();
+
+        for start in 0..params.len() {
+            let mut seen = vec![false; params.len()];
+            let mut stack = mentions[start].clone();
+            while let Some(next) = stack.pop() {
+                if next == start {
+                    errors.err(
+                        format!(
+                            "The concrete type of {0} refers to {0} itself",
+                            params[start]
+                        ),
+                        params[start].span(),
+                    );
+                    self.type_params[start].1 = None;
+                    break;
+                }
+                if !std::mem::replace(&mut seen[next], true) {
+                    stack.extend(mentions[next].iter().copied());
+                }
+            }
+        }
+    }
+
     pub fn set_source_lifetime(&mut self, source_lifetime: TokenStream, errors: &mut Errors) {
         mod kw {
             syn::custom_keyword!(none);
